@@ -165,4 +165,94 @@ theorem block_bound_m (C D p L : Dec) (hC : 0 ≤ C.m) (hD : P ≤ D.m) (hp : 0 
     (Dec.quo (Dec.mul C p) D).m P_pos hD hp hpU hL hq f1 (by omega) (by omega) (by omega) f3
     (by omega) f2 (by omega) f4 (by omega) hM
 
+/-! ### the reverse direction: what the range scan cannot miss -/
+
+/-- integer core: if the index ratio is NOT below the normalised ratio then the value ratio is at least
+    `L − 2 − L²/(price·P + L) − price·(P+1)/P²` (mantissa units) -/
+theorem block_core_rev (Pp C D p L T R T1 q T2 N V T3 CR : Int)
+    (hP : 0 < Pp) (hD : Pp ≤ D) (hp : 0 < p) (hL : 0 < L) (hq : 0 < q) (hC : 0 ≤ C)
+    (f1 : T * D ≤ C * Pp * Pp)
+    (r1 : 2 * (R * Pp) ≤ 2 * T + Pp)
+    (hNR : N ≤ R)
+    (r3 : 2 * T2 ≤ 2 * (N * Pp) + Pp)
+    (f3 : Pp * Pp * Pp < (T2 + 1) * q)
+    (r2 : 2 * (q * Pp) ≤ 2 * T1 + 2 * Pp)
+    (f2 : T1 * L ≤ p * Pp * Pp)
+    (r5 : 2 * T3 ≤ 2 * (CR * Pp) + Pp)
+    (f4 : V * Pp * Pp < (T3 + 1) * D)
+    (r4 : 2 * (C * p) ≤ 2 * (V * Pp) + Pp) :
+    p * (Pp * Pp * Pp * L - (Pp + 1) * (p * Pp + L)) < (CR + 2) * (Pp * Pp) * (p * Pp + L) := by
+  have hDpos : 0 < D := by omega
+  -- (1),(2): P³ < (T + P + 1)·q
+  have a0 : N * Pp ≤ R * Pp := Int.mul_le_mul_of_nonneg_right hNR (by omega)
+  have a1 : 2 * (T2 + 1) ≤ 2 * T + 2 * Pp + 2 := by omega
+  have a2 : 2 * (T2 + 1) * q ≤ (2 * T + 2 * Pp + 2) * q := Int.mul_le_mul_of_nonneg_right a1 (by omega)
+  have a3 : Pp * Pp * Pp < (T + Pp + 1) * q := by grind
+  -- (3): × D
+  have a4 : Pp * Pp * Pp * D < (T + Pp + 1) * q * D := Int.mul_lt_mul_of_pos_right a3 hDpos
+  have a5 : T * D * q ≤ C * Pp * Pp * q := Int.mul_le_mul_of_nonneg_right f1 (by omega)
+  have a6 : Pp * Pp * Pp * D < (C * Pp * Pp + (Pp + 1) * D) * q := by grind
+  -- (4): q·L ≤ p·P + L
+  have b1 : (2 * (q * Pp)) * L ≤ (2 * T1 + 2 * Pp) * L := Int.mul_le_mul_of_nonneg_right r2 (by omega)
+  have b2 : (q * L) * Pp ≤ (p * Pp + L) * Pp := by grind
+  have b3 : q * L ≤ p * Pp + L := Int.le_of_mul_le_mul_right b2 hP
+  -- (5): × L
+  have hK : 0 ≤ C * Pp * Pp + (Pp + 1) * D :=
+    Int.add_nonneg (Int.mul_nonneg (Int.mul_nonneg hC (by omega)) (by omega)) (Int.mul_nonneg (by omega) (by omega))
+  have c1 : Pp * Pp * Pp * D * L < (C * Pp * Pp + (Pp + 1) * D) * q * L := Int.mul_lt_mul_of_pos_right a6 hL
+  have c2 : (C * Pp * Pp + (Pp + 1) * D) * (q * L) ≤ (C * Pp * Pp + (Pp + 1) * D) * (p * Pp + L) :=
+    Int.mul_le_mul_of_nonneg_left b3 hK
+  have c3 : Pp * Pp * Pp * D * L < (C * Pp * Pp + (Pp + 1) * D) * (p * Pp + L) := by grind
+  -- (6): C·p ≤ (CR + 2)·D
+  have d1 : 2 * (T3 + 1) * D ≤ (2 * (CR * Pp) + Pp + 2) * D := Int.mul_le_mul_of_nonneg_right (by omega) (by omega)
+  have d2 : 2 * (C * p) * Pp ≤ (2 * (V * Pp) + Pp) * Pp := Int.mul_le_mul_of_nonneg_right r4 (by omega)
+  have d3 : Pp * Pp ≤ Pp * D := Int.mul_le_mul_of_nonneg_left hD (by omega)
+  have d4 : D ≤ Pp * D := by
+    have : 1 * D ≤ Pp * D := Int.mul_le_mul_of_nonneg_right (by omega) (by omega)
+    omega
+  have d5 : (C * p) * Pp ≤ ((CR + 2) * D) * Pp := by grind
+  have d6 : C * p ≤ (CR + 2) * D := Int.le_of_mul_le_mul_right d5 hP
+  -- (7)
+  have hW : 0 ≤ Pp * Pp * (p * Pp + L) :=
+    Int.mul_nonneg (Int.mul_nonneg (by omega) (by omega)) (Int.add_nonneg (Int.mul_nonneg (by omega) (by omega)) (by omega))
+  have e1 : C * p * (Pp * Pp * (p * Pp + L)) ≤ (CR + 2) * D * (Pp * Pp * (p * Pp + L)) :=
+    Int.mul_le_mul_of_nonneg_right d6 hW
+  have e2 : Pp * Pp * Pp * D * L * p < (C * Pp * Pp + (Pp + 1) * D) * (p * Pp + L) * p := Int.mul_lt_mul_of_pos_right c3 hp
+  have e3 : (p * (Pp * Pp * Pp * L - (Pp + 1) * (p * Pp + L))) * D < ((CR + 2) * (Pp * Pp) * (p * Pp + L)) * D := by grind
+  exact Int.lt_of_mul_lt_mul_right e3 (by omega)
+
+/-- on mantissas: a CDP that the block liquidator's scan does not reach has
+    `(CR + 2)·P²·(price·P + L) > price·(P³·L − (P+1)(price·P + L))`, i.e.
+    `CR > L − ε'` with `ε' = 2 + L²/(price·P + L) + price·(P+1)/P²` ulp -/
+theorem block_bound_rev_m (C D p L : Dec) (hC : 0 ≤ C.m) (hD : P ≤ D.m) (hp : 0 < p.m) (hL : 0 < L.m)
+    (hnsel : ¬ (Dec.quo C D).m < (normRatio p L).m) :
+    p.m * (P * P * P * L.m - (P + 1) * (p.m * P + L.m)) <
+      ((Dec.quo (Dec.mul C p) D).m + 2) * (P * P) * (p.m * P + L.m) := by
+  have hDpos : 0 < D.m := by have := P_pos; omega
+  obtain ⟨T, hT0, f1a, f1, r1a, r1, hR0⟩ := quo_spec C D hC hDpos
+  obtain ⟨T1, hT10, f2a, f2, r2a, r2, hq0⟩ := quo_spec p L (by omega) hL
+  let qd : Dec := if (Dec.quo p L).m = 0 then Dec.smallest else Dec.quo p L
+  have hqd : normRatio p L = Dec.quo Dec.one qd := rfl
+  have hq : 0 < qd.m := by
+    show 0 < (if (Dec.quo p L).m = 0 then Dec.smallest else Dec.quo p L).m
+    split
+    · decide
+    · omega
+  have hqle : 2 * (qd.m * P) ≤ 2 * T1 + 2 * P := by
+    show 2 * ((if (Dec.quo p L).m = 0 then Dec.smallest else Dec.quo p L).m * P) ≤ 2 * T1 + 2 * P
+    split
+    · have : Dec.smallest.m = 1 := rfl
+      rw [this]; omega
+    · omega
+  rw [hqd] at hnsel
+  obtain ⟨T2, hT20, f3, f3b, r3, r3b, hN0⟩ := quo_spec Dec.one qd (by decide) hq
+  have h1m : Dec.one.m = P := rfl
+  rw [h1m] at f3 f3b
+  have hCp : 0 ≤ C.m * p.m := Int.mul_nonneg hC (by omega)
+  obtain ⟨r4, r4b, hV0⟩ := mul_spec C p hCp
+  obtain ⟨T3, hT30, f4, f4b, r5, r5b, hCR0⟩ := quo_spec (Dec.mul C p) D hV0 hDpos
+  exact block_core_rev P C.m D.m p.m L.m T (Dec.quo C D).m T1 qd.m T2 (Dec.quo Dec.one qd).m (Dec.mul C p).m T3
+    (Dec.quo (Dec.mul C p) D).m P_pos hD hp hL hq hC f1a (by omega) (by omega) (by omega) f3b
+    hqle f2a (by omega) f4b (by omega)
+
 end KV.Cdp
